@@ -11,10 +11,12 @@ SEM_FIELDS = {"str": ["s1", "s2"], "int": ["i1", "i2"], "bool": ["b1"]}
 STR_POOL = ["", "a", "ab", "abc", "ABC", "aXb", "O'B", "100%", "a_c", "a\\b", " a ", "é", "x''y", "--", "%", "_", "b", "Ab", "'", "''",
             "%41", "%25", "a%20b", "a+b", "%2F", "&amp;",
             # texts a Unicode normaliser would rewrite: decomposed / precomposed pairs and compatibility singletons (comparison is code point by code point)
-            "Cafe\u0301", "Caf\u00e9", "\u212b", "\u00c5", "\u212a"]      # texts a decoder (URL, HTML) would rewrite: the filter text reaches the shorthands already decoded
+            "Cafe\u0301", "Caf\u00e9", "\u212b", "\u00c5", "\u212a",
+            # whitespace INSIDE a value: runs of blanks, a tab, a line break, only blanks (a re-layout of the filter text must not reach into literals)
+            "a  b", "a b", "a\tb", "a\nb", "  ", " a", "a "]      # texts a decoder (URL, HTML) would rewrite: the filter text reaches the shorthands already decoded
 
 INTS = [None, -7, -1, 0, 1, 2, 7, 3]
-STRS = [None, "", "a", "ab", "abc", "ABC", "aXb", "O'B", "100%", "a_c", "a\\b", " a ", "é", "b", "Ab", "%", "x''y", "'", "''", "%41", "A", "%25", "a%20b", "a b", "a+b", "/", "&amp;", "&", "Cafe\u0301", "Caf\u00e9", "\u212b", "\u00c5", "\u212a", "K"]
+STRS = [None, "", "a", "ab", "abc", "ABC", "aXb", "O'B", "100%", "a_c", "a\\b", " a ", "é", "b", "Ab", "%", "x''y", "'", "''", "%41", "A", "%25", "a%20b", "a b", "a+b", "/", "&amp;", "&", "Cafe\u0301", "Caf\u00e9", "\u212b", "\u00c5", "\u212a", "K", "a  b", "a\tb", "a\nb", "  ", " ", " a", "a "]
 BOOLS = [None, 0, 1]
 
 class SemGen(gens_typed.TypedGen):
